@@ -602,12 +602,12 @@ fn gen_histories(out: &mut Out, rng: &mut Rng, n: usize) {
 pub fn generate_c09(args: &Args, out: &mut Out) {
     let mut rng = Rng::new(args.seed);
     let full = args.thorough();
-    gen_histories(out, &mut rng, if full { 20000 } else { 600 });
+    gen_histories(out, &mut rng, if full { 3000 } else { 600 });
     for n in RFC_NUMBERS {
         out.case(|| format!("kn {}", hex_str(n)));
     }
     // numbers
-    let nn = if full { 400000 } else { 5000 };
+    let nn = if full { 50000 } else { 5000 };
     for _ in 0..nn {
         let mut r = rng.fork();
         let d = gen_decimal(&mut r);
@@ -617,7 +617,7 @@ pub fn generate_c09(args: &Args, out: &mut Out) {
     }
     // keys: every permutation of up to 5 members drawn from the critical pool
     let pool = key_pool();
-    let sets = if full { 400 } else { 60 };
+    let sets = if full { 150 } else { 60 };
     for _ in 0..sets {
         let mut r = rng.fork();
         let n = r.range(2, if full { 5 } else { 4 });
@@ -633,8 +633,16 @@ pub fn generate_c09(args: &Args, out: &mut Out) {
             out.case_str(&format!("k | {{ {} }}", ents.join(" ")));
         }
     }
+    // minimal escaping: every character up to U+00FF and the block boundaries, as a key and as a
+    // string value (alone, and after/before an ordinary character)
+    let mut cs: Vec<u32> = (0..0x100).collect();
+    cs.extend([0x2028u32, 0x2029, 0xd7ff, 0xe000, 0xfeff, 0xfffd, 0xfffe, 0xffff, 0x10000, 0x1f600, 0x10ffff]);
+    for c in cs {
+        out.case(|| format!("k | {{ ${c:x} ${c:x} }}"));
+        out.case(|| format!("k | [ $61,{c:x},62 ]"));
+    }
     // whole documents
-    let nd = if full { 60000 } else { 1500 };
+    let nd = if full { 8000 } else { 1500 };
     for _ in 0..nd {
         let mut r = rng.fork();
         let mut s = String::new();
@@ -723,9 +731,9 @@ fn respell_value(r: &mut Rng, v: &Value) -> Value {
 pub fn generate_c10(args: &Args, out: &mut Out) {
     let mut rng = Rng::new(args.seed ^ 0xC10);
     let full = args.thorough();
-    gen_histories(out, &mut rng, if full { 20000 } else { 600 });
+    gen_histories(out, &mut rng, if full { 3000 } else { 600 });
     // documents that differ only in white space, escapes, member order and number spelling
-    for _ in 0..(if full { 20000 } else { 700 }) {
+    for _ in 0..(if full { 4000 } else { 700 }) {
         let mut r = rng.fork();
         let mut s = String::new();
         let d = r.range(1, 4);
@@ -747,7 +755,7 @@ pub fn generate_c10(args: &Args, out: &mut Out) {
         let b = format!("{{ \"a\" : 1.0 , \"{esc}\" : \"{esc}\" }}");
         out.case_str(&format!("kd | {} | {}", hex_str(&a), hex_str(&b)));
     }
-    let nd = if full { 40000 } else { 1000 };
+    let nd = if full { 6000 } else { 1000 };
     for _ in 0..nd {
         let mut r = rng.fork();
         let mut s = String::new();
@@ -761,7 +769,7 @@ pub fn generate_c10(args: &Args, out: &mut Out) {
     }
     // every permutation of small objects, nested
     let pool = key_pool();
-    for _ in 0..(if full { 300 } else { 40 }) {
+    for _ in 0..(if full { 120 } else { 40 }) {
         let mut r = rng.fork();
         let n = r.range(2, if full { 5 } else { 4 });
         let mut ks: Vec<usize> = vec![];
@@ -779,7 +787,7 @@ pub fn generate_c10(args: &Args, out: &mut Out) {
         }
     }
     // numbers: exact respellings
-    for _ in 0..(if full { 150000 } else { 2500 }) {
+    for _ in 0..(if full { 20000 } else { 2500 }) {
         let mut r = rng.fork();
         let d = gen_decimal(&mut r);
         if !valid_number(&d) {
